@@ -433,6 +433,28 @@ theorem two_adic_valuation_spec_partial (x : Int) (h : x % 2 ^ 32 ≠ 0) :
       apply Int.eq_of_mul_eq_mul_left h2t
       linear_combination hm
     omega
+/-- `ibz_two_adic` (the big-integer replacement used by keygen/sign since fix b69f2a3): the exact 2-adic valuation
+    of EVERY non-zero integer (any sign, any size), and 0 for x = 0 -/
+theorem ibz_two_adic_spec (x : Int) :
+    (x ≠ 0 → (2 : Int) ^ ibzTwoAdic x ∣ x ∧ ¬ (2 : Int) ^ (ibzTwoAdic x + 1) ∣ x) ∧ (x = 0 → ibzTwoAdic x = 0) := by
+  refine ⟨fun hx => ?_, fun hx => by simp [ibzTwoAdic, hx]⟩
+  unfold ibzTwoAdic
+  rw [if_neg hx]
+  have hpos : 0 < x.natAbs := Int.natAbs_pos.mpr hx
+  obtain ⟨h1, h2, _⟩ := trailingZeros_spec' x.natAbs x.natAbs hpos Nat.lt_two_pow_self
+  generalize trailingZeros x.natAbs x.natAbs = t at h1 h2
+  constructor
+  · rw [← Int.dvd_natAbs]
+    exact_mod_cast (Dvd.intro_left _ h1.symm)
+  · intro hd
+    rw [← Int.dvd_natAbs] at hd
+    have hd' : 2 ^ (t + 1) ∣ x.natAbs := by exact_mod_cast hd
+    rw [h1, Nat.pow_succ, Nat.mul_comm (2 ^ t) 2] at hd'
+    have h2t : 0 < 2 ^ t := Nat.two_pow_pos t
+    have := Nat.dvd_of_mul_dvd_mul_right h2t hd'
+    omega
+example : ibzTwoAdic (2 ^ 32) = 32 ∧ ibzTwoAdic (-(3 * 2 ^ 100)) = 100 ∧ ibzTwoAdic 0 = 0 ∧ ibzTwoAdic 7 = 0 := by decide +kernel
+
 /-- NEGATION of the full statement (finding, feeds C04): when 2^32 | x the result is 0, e.g. x = 2^32 -/
 theorem two_adic_valuation_truncates (x : Int) (h : x % 2 ^ 32 = 0) : twoAdicValuationOfIbz x = 0 := by
   rw [twoAdicValuationOfIbz_eq, if_pos h]
